@@ -47,10 +47,22 @@ pub struct Case {
     /// real names of the directories `w`, `lp1`, `lp2` when `real_fs` (empty = unchanged)
     #[serde(default)]
     pub dirnames: Vec<String>,
+    /// importer two directories deep (`w/d/e/imp.scss`) instead of one
+    #[serde(default)]
+    pub deep: bool,
+    /// candidates that exist as DIRECTORIES of that name (must be skipped like missing files)
+    #[serde(default)]
+    pub present_dirs: Vec<(Loc, usize)>,
+    /// plain arm: write the statement inside a style rule
+    #[serde(default)]
+    pub plain_nested: bool,
 }
 
 fn cand_names(kind: LoadKind, url: &str) -> Vec<String> {
-    if kind == LoadKind::Import {
+    if crate::resolve::has_ext(url) {
+        // an explicit extension names exactly one file
+        vec![url.to_string()]
+    } else if kind == LoadKind::Import {
         candidates_import(url, true)
     } else {
         candidates_use(url)
@@ -58,21 +70,28 @@ fn cand_names(kind: LoadKind, url: &str) -> Vec<String> {
 }
 
 impl Case {
-    fn importer_dir(&self) -> &'static str {
+    fn sub(&self) -> &'static str {
+        match (self.subdir, self.deep) {
+            (false, _) => "",
+            (true, false) => "d",
+            (true, true) => "d/e",
+        }
+    }
+    fn importer_dir(&self) -> String {
         if self.subdir {
-            "w/d"
+            format!("w/{}", self.sub())
         } else {
-            "w"
+            "w".to_string()
         }
     }
     fn loc_dir(&self, l: Loc) -> String {
         match l {
-            Loc::Rel => self.importer_dir().to_string(),
+            Loc::Rel => self.importer_dir(),
             Loc::Base0 => "w".into(),
             Loc::Lp1 => "lp1".into(),
             Loc::Lp2 => "lp2".into(),
-            Loc::DecoyLp1 => "lp1/d".into(),
-            Loc::DecoyLp2 => "lp2/d".into(),
+            Loc::DecoyLp1 => format!("lp1/{}", self.sub()),
+            Loc::DecoyLp2 => format!("lp2/{}", self.sub()),
         }
     }
     fn path_of(&self, l: Loc, c: usize) -> String {
@@ -87,9 +106,14 @@ impl Case {
     }
     fn load_stmt(&self) -> String {
         if let Some(p) = &self.plain {
-            return format!("@import {p};\n");
+            return if self.plain_nested {
+                format!("n {{ @import {p}; }}\n")
+            } else {
+                format!("@import {p};\n")
+            };
         }
         match self.kind {
+            LoadKind::LoadCss => format!("@use \"sass:meta\";\n@include meta.load-css(\"{}\");\n", self.url),
             LoadKind::Use => format!("@use \"{}\" as t;\n", self.url),
             LoadKind::Forward => format!("@forward \"{}\";\n", self.url),
             _ => format!("@import \"{}\";\n", self.url),
@@ -101,11 +125,12 @@ impl Case {
             fs.add_dir(&b);
         }
         let root = if self.subdir {
-            fs.add_file("w/d/imp.scss", format!("{}i {{ p: imp; }}\n", self.load_stmt()));
+            let sub = self.sub();
+            fs.add_file(&format!("w/{sub}/imp.scss"), format!("{}i {{ p: imp; }}\n", self.load_stmt()));
             if self.kind == LoadKind::Import {
-                "@import \"d/imp\";\nr { p: root; }\n".to_string()
+                format!("@import \"{sub}/imp\";\nr {{ p: root; }}\n")
             } else {
-                "@use \"d/imp\" as i;\nr { p: root; }\n".to_string()
+                format!("@use \"{sub}/imp\" as i;\nr {{ p: root; }}\n")
             }
         } else {
             format!("{}r {{ p: root; }}\n", self.load_stmt())
@@ -114,6 +139,11 @@ impl Case {
         for (l, c) in &self.present {
             let p = self.path_of(*l, *c);
             fs.add_file(&p, format!("c {{ p: \"{p}\"; }}\n"));
+        }
+        for (l, c) in &self.present_dirs {
+            if !self.has(*l, *c) {
+                fs.add_dir(&self.path_of(*l, *c));
+            }
         }
         if let Some(pf) = &self.plain_file {
             fs.add_file(pf, format!("c {{ p: \"{pf}\"; }}\n"));
@@ -130,7 +160,7 @@ impl Case {
         let n = cand_names(self.kind, &self.url).len();
         let mut out = BTreeSet::new();
         // R-b: candidate order for @import
-        let orders: Vec<Vec<usize>> = if self.kind == LoadKind::Import {
+        let orders: Vec<Vec<usize>> = if self.kind == LoadKind::Import && n == 10 {
             vec![
                 (0..n).collect(),                       // grouped (the list as named)
                 vec![0, 2, 1, 3, 4, 6, 5, 7, 8, 9],     // pairwise
@@ -344,7 +374,7 @@ pub fn judge(case: &Case, stats: &mut Stats) -> (Judgement, Option<Outcome>) {
             if w.contains("index") {
                 stats.inc("probe:index_file_won");
             }
-            if !w.starts_with(case.importer_dir()) || (case.subdir && !w.starts_with("w/d/")) {
+            if !w.starts_with(&format!("{}/", case.importer_dir())) {
                 stats.inc("probe:found_in_load_path");
             }
         } else {
@@ -369,7 +399,7 @@ pub fn judge(case: &Case, stats: &mut Stats) -> (Judgement, Option<Outcome>) {
         && locs.iter().any(|l| matches!(l, Loc::Lp1 | Loc::Lp2 | Loc::Base0));
     sig.push_str(&format!(" unchanged_url_needed={}", u8::from(only_unchanged)));
     let decoy = match &obs {
-        Observed::Winner(w) => w.starts_with("lp1/d/") || w.starts_with("lp2/d/"),
+        Observed::Winner(w) => case.subdir && (w.starts_with(&format!("lp1/{}/", case.sub())) || w.starts_with(&format!("lp2/{}/", case.sub()))),
         _ => false,
     };
     sig.push_str(&format!(" observed_decoy={}", u8::from(decoy)));
@@ -388,7 +418,7 @@ pub fn judge(case: &Case, stats: &mut Stats) -> (Judgement, Option<Outcome>) {
             format!(
                 "{} in {}: expected one of {:?}, observed {:?}; present: {:?}",
                 case.load_stmt().trim(),
-                if case.subdir { "w/d/imp.scss" } else { "w/root.scss" },
+                if case.subdir { format!("{}/imp.scss", case.importer_dir()) } else { "w/root.scss".to_string() },
                 exp_s,
                 obs,
                 case.present.iter().map(|(l, c)| case.path_of(*l, *c)).collect::<Vec<_>>()
@@ -433,7 +463,7 @@ const N_IMP: u64 = 1024;
 const SINGLE: u64 = (N_USE + N_USE + N_IMP) * 4;
 const TWO_LOC_USE: u64 = 4096 * 2;
 
-const PLAIN_FORMS: [(&str, Option<&str>); 9] = [
+const PLAIN_FORMS: [(&str, Option<&str>); 12] = [
     ("\"x.css\"", Some("x.css")),
     ("\"s/x.css\"", Some("s/x.css")),
     ("\"http://h.example/x\"", None),
@@ -444,8 +474,12 @@ const PLAIN_FORMS: [(&str, Option<&str>); 9] = [
     // negatives: not a plain-css form, nothing to find -> must fail
     ("\"nofile\"", None),
     ("\"s/nofile.scss\"", None),
+    // with media queries
+    ("\"x.css\" screen", None),
+    ("url(x.css) print", None),
+    ("\"https://h.example/x.css\" screen and (min-width: 1px)", None),
 ];
-const PLAIN: u64 = 9 * 2 * 2;
+const PLAIN: u64 = 12 * 2 * 2 * 2;
 
 fn subset(bits: u64, n: usize, loc: Loc) -> Vec<(Loc, usize)> {
     (0..n).filter(|c| bits & (1 << c) != 0).map(|c| (loc, c)).collect()
@@ -476,15 +510,19 @@ pub fn case_for(index: u64, tier: Tier, rng: &mut Rng) -> (Case, &'static str) {
                 chunk: Chunking::NONE,
                 real_fs: false,
                 dirnames: vec![],
+                deep: false,
+                present_dirs: vec![],
+                plain_nested: false,
             },
             "single_location_exhaustive",
         );
     }
     i -= SINGLE;
     if i < PLAIN {
-        let (arg, file) = PLAIN_FORMS[(i / 4) as usize];
+        let (arg, file) = PLAIN_FORMS[(i / 8) as usize];
         let subdir = i & 1 != 0;
         let exists = i & 2 != 0;
+        let nested = i & 4 != 0;
         let dir = if subdir { "w/d" } else { "w" };
         return (
             Case {
@@ -498,6 +536,9 @@ pub fn case_for(index: u64, tier: Tier, rng: &mut Rng) -> (Case, &'static str) {
                 chunk: Chunking::NONE,
                 real_fs: false,
                 dirnames: vec![],
+                deep: false,
+                present_dirs: vec![],
+                plain_nested: nested,
             },
             "plain_css_arm",
         );
@@ -521,15 +562,26 @@ pub fn case_for(index: u64, tier: Tier, rng: &mut Rng) -> (Case, &'static str) {
                 chunk: Chunking::NONE,
                 real_fs: false,
                 dirnames: vec![],
+                deep: false,
+                present_dirs: vec![],
+                plain_nested: false,
             },
             "two_locations_use_exhaustive",
         );
     }
     // seeded sampling over several locations
-    let kind = *rng.pick(&[LoadKind::Use, LoadKind::Forward, LoadKind::Import, LoadKind::Import]);
+    let kind = *rng.pick(&[LoadKind::Use, LoadKind::Forward, LoadKind::Import, LoadKind::Import, LoadKind::LoadCss]);
     let subdir = rng.chance(1, 2);
+    let deep = subdir && rng.chance(1, 3);
     let nlp = 1 + rng.usize(2);
-    let n = if kind == LoadKind::Import { 10 } else { 6 };
+    let url: String = match rng.below(10) {
+        0..=4 => "u".into(),
+        5 | 6 => "s/u".into(),
+        7 => "u.scss".into(),
+        8 => "s/u.scss".into(),
+        _ => "u.x".into(),
+    };
+    let n = cand_names(kind, &url).len();
     let mut locs = vec![Loc::Rel, Loc::Lp1];
     if nlp == 2 {
         locs.push(Loc::Lp2);
@@ -560,7 +612,22 @@ pub fn case_for(index: u64, tier: Tier, rng: &mut Rng) -> (Case, &'static str) {
         Case {
             kind,
             subdir,
-            url: if rng.chance(1, 3) { "s/u".into() } else { "u".into() },
+            url,
+            present_dirs: {
+                let mut v = vec![];
+                if rng.chance(1, 5) {
+                    for l in &locs {
+                        for c in 0..n {
+                            if rng.chance(1, 6) && !present.contains(&(*l, c)) {
+                                v.push((*l, c));
+                            }
+                        }
+                    }
+                }
+                v
+            },
+            deep,
+            plain_nested: false,
             present,
             nlp,
             plain: None,
